@@ -21,6 +21,17 @@ CHECKS = {
              "the deviation bound, and every processing interval must equal a boring reference simulation (FIFO per "
              "object, <= L workers, idle retirement), with no duplicate, no overlap, no leaked task.",
         design_ref='DESIGN.md §6 C01'),
+    'C02': dict(
+        technique="stateless model checking of the implementation: exhaustive outcome-script x lifecycle enumeration, "
+                  "deviation-bounded schedule search and exhaustive crash-point enumeration in a closed loop with a fake API server",
+        text="The real watcher/processing/progress-storage/patching loop runs against an in-memory API server that feeds "
+             "every PATCH back as a watch event. All outcome scripts (len<=3) x lifecycles x foreign events, sub-handlers, "
+             "annotation and status storage are enumerated; on top, every placement of foreign events, delayed responses, "
+             "late echoes, and a kill before/after the server applied each in-flight PATCH (followed by a restart) up to the "
+             "deviation bound. Oracle from invocation log + server write log with an independent decoder of progress "
+             "records: no invocation on a view recording the handler as finished; retry == recorded attempts; purge / "
+             "last-handled exactly at the closing write; at most one success per cycle outside the stated carve-outs.",
+        design_ref='DESIGN.md §6 C02'),
 }
 
 
